@@ -295,8 +295,6 @@ pub fn map_err_to<T, E, F>(r: Result<T, E>, e: F) -> (o: Result<T, F>)
             proof {
                 [[L: loop_leaf/name_is_key_with_nuls_trimmed]]
                 assert(key_string@ == trim_nul(items[k__ as int].0));
-                [[L: loop_leaf/id_then_size_follow_the_key]]
-                assert(chrom_id == items[k__ as int].1 && chrom_size == items[k__ as int].2);
                 [[L: loop_leaf/item_is_key_size_plus_8_bytes]]
                 assert(bytes.rem() =~= blk.subrange(stride(k__ as int + 1, ks), blk.len() as int));
             }
@@ -305,6 +303,8 @@ pub fn map_err_to<T, E, F>(r: Result<T, E>, e: F) -> (o: Result<T, F>)
                 let it = items[k__ as int];
                 assert(items.subrange(0, k__ as int + 1) =~= items.subrange(0, k__ as int).push(it));
                 assert(rows_of(items.subrange(0, k__ as int).push(it)) =~= rows_of(items.subrange(0, k__ as int)).push(row_of(it)));
+                [[L: loop_leaf/id_then_size_follow_the_key]]
+                assert(chroms@.last().id == it.1 && chroms@.last().length == it.2);
                 [[L: loop_leaf/pushed_row_is_name_id_length]]
                 assert(chroms@ == chroms_before.push(chroms@.last()) && ci_view(chroms@.last()) == row_of(it));
                 assert(infos(chroms@) =~= infos(chroms_before).push(row_of(it)));
